@@ -101,6 +101,40 @@ struct Spec {
 	seed: u64,
 	max: u32,
 	ops: Vec<Op>,
+	/// how the service builder is put together (see `assemble`)
+	assembly: u8,
+}
+
+const ASSEMBLIES: [&str; 7] = [
+	"set_config(max).to_service_builder()",
+	"to_service_builder().max_connections(max)",
+	"to_service_builder().max_connections(max).set_http_middleware(..)",
+	"to_service_builder().set_http_middleware(..).max_connections(max)",
+	"to_service_builder().max_connections(max).set_rpc_middleware(..)",
+	"set_config(max) + builder-level http and rpc middleware, then to_service_builder()",
+	"to_service_builder().max_connections(max), set_http_middleware(..) again on the clone made for every connection",
+];
+
+fn assemble(assembly: u8, max: u32, sh: Arc<Shared>) -> MemServer {
+	use jsonrpsee_server::middleware::rpc::RpcServiceBuilder;
+	let cfg = ServerConfig::builder().max_connections(max).build();
+	let m = module(sh);
+	match assembly % 7 {
+		0 => MemServer::new(cfg, m),
+		1 => MemServer::with_builder(jsonrpsee_server::Server::builder().to_service_builder().max_connections(max), m),
+		2 => MemServer::with_builder(jsonrpsee_server::Server::builder().to_service_builder().max_connections(max).set_http_middleware(tower::ServiceBuilder::new()), m),
+		3 => MemServer::with_builder(jsonrpsee_server::Server::builder().to_service_builder().set_http_middleware(tower::ServiceBuilder::new()).max_connections(max), m),
+		4 => MemServer::with_builder(jsonrpsee_server::Server::builder().to_service_builder().max_connections(max).set_rpc_middleware(RpcServiceBuilder::new()), m),
+		5 => MemServer::with_builder(
+			jsonrpsee_server::Server::builder().set_config(cfg).set_http_middleware(tower::ServiceBuilder::new()).set_rpc_middleware(RpcServiceBuilder::new()).to_service_builder(),
+			m,
+		),
+		_ => {
+			let mut s = MemServer::with_builder(jsonrpsee_server::Server::builder().to_service_builder().max_connections(max), m);
+			s.per_conn_http_middleware = true;
+			s
+		}
+	}
 }
 
 #[derive(Default)]
@@ -144,8 +178,7 @@ struct WsConn {
 async fn run_spec(spec: &Spec) -> Out {
 	let mut out = Out::default();
 	let sh = Arc::new(Shared::default());
-	let cfg = ServerConfig::builder().max_connections(spec.max).build();
-	let srv = MemServer::new(cfg, module(sh.clone()));
+	let srv = assemble(spec.assembly, spec.max, sh.clone());
 	let mut held: Vec<Option<Held>> = Vec::new();
 	let mut wss: Vec<Option<WsConn>> = Vec::new();
 	let mut served: usize = 0;
@@ -512,7 +545,7 @@ fn gen_spec(seed: u64) -> Spec {
 		};
 		ops.push(op);
 	}
-	Spec { seed, max: r.below(4) as u32, ops }
+	Spec { seed, max: r.below(4) as u32, ops, assembly: if r.chance(1, 2) { 0 } else { 1 + r.below(6) as u8 } }
 }
 
 /// All sequences up to length n over a reduced alphabet, for max 1 and 2.
@@ -545,7 +578,8 @@ fn exhaustive_specs(max_len: usize) -> Vec<Spec> {
 			for max in [1u32, 2] {
 				let mut o = ops.clone();
 				o.push(Op::HttpQuick);
-				specs.push(Spec { seed: 0, max, ops: o });
+				let assembly = (specs.len() % 7) as u8;
+				specs.push(Spec { seed: 0, max, ops: o, assembly });
 			}
 		}
 		cur = next;
@@ -576,7 +610,8 @@ fn cycle_specs(reps: usize) -> Vec<Spec> {
 				ops.push(Op::WsOpen);
 			}
 			ops.push(Op::HttpQuick);
-			v.push(Spec { seed: 0, max, ops });
+			let assembly = (v.len() % 7) as u8;
+			v.push(Spec { seed: 0, max, ops, assembly });
 		}
 	}
 	v
@@ -1202,7 +1237,8 @@ fn record(spec: &Spec, o: Out, class: &str, ev: &mut Evidence, violations: &mut 
 	ev.count("connection_endings", o.endings as u64);
 	ev.count(&format!("cases_{class}"), 1);
 	if o.admitted > 0 && o.occupancy_checks > 0 {
-		ev.nontrivial(&(spec.max, &spec.ops));
+		ev.nontrivial(&(spec.max, &spec.ops, spec.assembly));
+		ev.class("service_builder_assemblies", &ASSEMBLIES[spec.assembly as usize % 7]);
 	}
 	for s in &o.states {
 		ev.class("occupancy_states", s);
@@ -1210,7 +1246,7 @@ fn record(spec: &Spec, o: Out, class: &str, ev: &mut Evidence, violations: &mut 
 	if o.violations.is_empty() {
 		ev.sample_class(class, json!({"max_connections": spec.max, "ops": spec.ops.iter().take(24).map(|o| format!("{o:?}")).collect::<Vec<_>>(), "history": o.history.iter().take(12).collect::<Vec<_>>() }));
 	}
-	let w = json!({"seed": spec.seed, "class": class, "max_connections": spec.max, "ops": spec.ops.iter().take(80).map(|o| format!("{o:?}")).collect::<Vec<_>>(), "n_ops": spec.ops.len(), "history": o.history.iter().rev().take(40).rev().collect::<Vec<_>>() });
+	let w = json!({"seed": spec.seed, "class": class, "assembly": ASSEMBLIES[spec.assembly as usize % 7], "max_connections": spec.max, "ops": spec.ops.iter().take(80).map(|o| format!("{o:?}")).collect::<Vec<_>>(), "n_ops": spec.ops.len(), "history": o.history.iter().rev().take(40).rev().collect::<Vec<_>>() });
 	for (sig, d) in o.violations {
 		violations.push(Violation::new(sig, d, w.clone()));
 	}
@@ -1270,7 +1306,9 @@ fn main() {
 		};
 		let first_ops = w["witness"]["ops"].clone();
 		for s in all {
-			if s.ops.len() == n && s.max == max && json!(s.ops.iter().take(80).map(|o| format!("{o:?}")).collect::<Vec<_>>()) == first_ops {
+			if s.ops.len() == n && s.max == max && json!(s.ops.iter().take(80).map(|o| format!("{o:?}")).collect::<Vec<_>>()) == first_ops
+				&& (w["witness"]["assembly"].is_null() || w["witness"]["assembly"] == json!(ASSEMBLIES[s.assembly as usize % 7]))
+			{
 				specs.push((s, "replay"));
 				break;
 			}
